@@ -25,6 +25,10 @@ fn main() {
                     let mut v = Vec::new();
                     gen::fault_scenarios(&mut r, seed.wrapping_mul(131).wrapping_add(i), &mut v);
                     v
+                } else if stream == "faultbig" {
+                    let mut v = Vec::new();
+                    gen::faultbig_scenarios(&mut r, seed.wrapping_mul(131).wrapping_add(i), &mut v);
+                    v
                 } else {
                     gen::scenario(stream, &mut r, seed.wrapping_mul(100000).wrapping_add(i))
                 };
